@@ -32,7 +32,10 @@ for i in range(1, 10):
                 sel.add(d["id"])
         checks = sorted(sel)
     for c in checks:
-        p = subprocess.run("VERIF_FROZEN=1 VERIF_REPO=%s ./check %s quick" % (wt, c), shell=True, cwd=os.environ.get("VERIF_ROOT", "/verif"), stdout=subprocess.PIPE, stderr=subprocess.STDOUT)
+        # (the cross-cutting checks with the plain quick budget: the change-directed escalation multiplies their
+        # 3 M operations by four again, which a campaign over dozens of changes cannot afford)
+        pre = "VERIF_REPS=4 " if c in ("C01", "C02", "C03") and os.environ.get("FULL") != "1" else ""
+        p = subprocess.run(pre + "VERIF_FROZEN=1 VERIF_REPO=%s ./check %s quick" % (wt, c), shell=True, cwd=os.environ.get("VERIF_ROOT", "/verif"), stdout=subprocess.PIPE, stderr=subprocess.STDOUT)
         out = p.stdout.decode("utf-8", "replace")
         v = [l for l in out.split("\n") if l.startswith("VIOLATION")]
         if v or p.returncode:
